@@ -205,6 +205,7 @@ def shards(tier):
         out.append({"kind": "pairs", "part": i, "of": 12, "stride": 16 if quick else 1, "core": False})
     for i in range(3):
         out.append({"kind": "grammar", "which": ["afe", "form", "afe"][i], "n": 6000 if quick else 150000})
+    out.append({"kind": "distinct"})
     out.append({"kind": "determinism", "n": 300 if quick else 5000})
     out.append({"kind": "quirks"})
     if not quick:
@@ -259,6 +260,23 @@ def run_shard(desc, seed, tier):
             case = {"text": text, "container": container, "scripting": scripting}
             acc.add(case, check_case(case))
         drive(strat, fn, desc["n"], seed)
+    elif kind == "distinct":
+        # many DISTINCT tag names in one parse, then tags with dedicated rules: the per-phase handler caches of html5lib fill up
+        # and evict; nothing in the standard depends on how many different names came before
+        pres = ["", "<!DOCTYPE html>", "<table><tr><td>", "<select>", "<table>", "<table><caption>", "<svg>", "<frameset>", "<table><tr>", "<p>", "<ruby>", "<head>"]
+        tails = ["<p>t<table><tr><td>c</table>", "<td>y</table>z", "<input><option>o", "<frame>", "</p></div></table>x", "<tr><td>q", "<li>a<li>b</li>", "<select><option>a<option>b",
+                 "<b>x</p><i>y", "<caption>c<col>", "<body a=1><html b=2>", "</table>w<table>"]
+        n = 0
+        for pi, pre in enumerate(pres):
+            for K in (3, 6, 9, 11, 12, 13, 17, 18, 30, 62, 63, 64, 114, 115, 116, 130, 200):
+                for shape in range(3):
+                    for ti in range(2):
+                        body = "".join(("<n%d>" % i, "</n%d>" % i, "<n%d></n%d>" % (i, i))[shape] for i in range(K))
+                        n += 1
+                        case = {"text": pre + body + tails[(n + ti * 5) % len(tails)], "container": None if n % 3 else ["div", "table", "tr", "select", "frameset", "td", "colgroup"][n % 7],
+                                "scripting": bool(n % 2)}
+                        acc.add(case, check_case(case))
+        acc.extra["distinct_name_cases"] = n
     elif kind == "quirks":
         # the quirks tables, observed through the tree: in quirks mode <table> does not close an open p
         pubs = list(T.QUIRKS_PUBLIC_PREFIXES) + list(T.QUIRKS_PUBLIC_EXACT) + list(T.LIMITED_QUIRKS_PREFIXES) + \
